@@ -33,6 +33,13 @@ impl PanicSig {
     }
 }
 
+impl PanicSig {
+    /// the step fuel of the verif-hooks feature ran out: a run-away next(), not a crash
+    pub fn is_fuel(&self) -> bool {
+        self.message.starts_with(digital_test_runner::verif_hooks::FUEL_EXHAUSTED)
+    }
+}
+
 impl std::fmt::Display for PanicSig {
     fn fmt(&self, f: &mut std::fmt::Formatter<'_>) -> std::fmt::Result {
         write!(f, "panic '{}' at {}:{}", self.message, self.file, self.line)
@@ -208,7 +215,7 @@ impl Core {
             self.log.borrow_mut()[li].failed = true;
             return Err(DriverError { id: fail_id(&self.spec, t) });
         }
-        let c = self.reads;
+        let c = t;
         self.reads += 1;
         // (signal index, rewidthed?, value)
         let mut ans: Vec<(usize, bool, OutVal)> =
@@ -432,6 +439,14 @@ pub fn iter_err<E: std::error::Error + 'static>(
     }
 }
 
+/// fuel for runs that are not guarded by a reference run (about half a second of spinning)
+pub const DEFAULT_FUEL: u64 = 20_000_000;
+
+/// fuel for a run whose reference finished in `steps` statement executions
+pub fn fuel_for(steps: usize) -> Option<u64> {
+    Some(16 * steps as u64 + 20_000)
+}
+
 pub struct RunOpts {
     /// maximal number of next() calls
     pub max_next: usize,
@@ -442,11 +457,13 @@ pub struct RunOpts {
     pub seed: Option<u64>,
     /// keep calling next() after a runtime error item
     pub continue_after_error: bool,
+    /// step fuel for the crate's statement iterator over the whole run (verif-hooks)
+    pub fuel: Option<u64>,
 }
 
 impl Default for RunOpts {
     fn default() -> Self {
-        RunOpts { max_next: 2000, extra_after_end: 0, want_vars: false, seed: Some(0), continue_after_error: false }
+        RunOpts { max_next: 2000, extra_after_end: 0, want_vars: false, seed: Some(0), continue_after_error: false, fuel: Some(DEFAULT_FUEL) }
     }
 }
 
@@ -467,6 +484,7 @@ fn take_draws() -> (Vec<crate::ri::DrawEv>, usize) {
 
 fn run_with<D: HasCore>(tc: &TestCase, mut driver: D, opts: &RunOpts) -> RealRun {
     digital_test_runner::verif_hooks::set_seed_override(opts.seed);
+    digital_test_runner::verif_hooks::set_fuel(opts.fuel);
     let _ = digital_test_runner::verif_hooks::take_log();
     let mut run = RealRun {
         ctor: None,
@@ -550,6 +568,7 @@ fn run_with<D: HasCore>(tc: &TestCase, mut driver: D, opts: &RunOpts) -> RealRun
     run.draws = d;
     run.new_runs = n;
     digital_test_runner::verif_hooks::set_seed_override(None);
+    digital_test_runner::verif_hooks::set_fuel(None);
     run
 }
 
@@ -618,6 +637,7 @@ pub enum StaticRun {
 
 pub fn run_static(tc: &TestCase, max_next: usize, seed: Option<u64>) -> StaticRun {
     digital_test_runner::verif_hooks::set_seed_override(seed);
+    digital_test_runner::verif_hooks::set_fuel(Some(DEFAULT_FUEL));
     let _ = digital_test_runner::verif_hooks::take_log();
     let r = match guarded(|| tc.try_iter_static()) {
         Err(p) => StaticRun::CtorPanic(p),
@@ -664,5 +684,6 @@ pub fn run_static(tc: &TestCase, max_next: usize, seed: Option<u64>) -> StaticRu
     };
     let _ = digital_test_runner::verif_hooks::take_log();
     digital_test_runner::verif_hooks::set_seed_override(None);
+    digital_test_runner::verif_hooks::set_fuel(None);
     r
 }
